@@ -142,6 +142,8 @@ void verif_stop(const char *why);
 #define __CPROVER_r_ok(p, n) 1
 #define __CPROVER_w_ok(p, n) 1
 #define __CPROVER_havoc_slice(p, n) verif_fill((p), (n))
+#define __CPROVER_same_object(a, b) verif_same_object((a), (b))
+bool verif_same_object(const void *a, const void *b);
 void verif_fill(void *p, size_t n);
 #endif
 
